@@ -3,7 +3,7 @@
    fields; the RMSD measures, renumbering, hydrogens and permutations are decided by the
    metamorphic correspondence (every variant scored by the real routines). *)
 From Verif Require Import PyLib ModelTypes Model_contact Spec_contact Model_superpose Spec_superpose
-  Proofs_superpose Proofs_invariance Proofs_rigid_rmsd Proofs_renumber Proofs_hydrogens Proofs_relabel Model_zone Model_rmsd Proofs_renumber_rmsd.
+  Proofs_superpose Proofs_invariance Proofs_rigid_rmsd Proofs_renumber Proofs_hydrogens Proofs_relabel Model_zone Model_rmsd Proofs_renumber_rmsd Proofs_permute.
 Open Scope Q_scope.
 
 (* every rigid motion (orthogonal matrix, any translation) preserves all squared distances ... *)
@@ -139,9 +139,17 @@ Theorem C11_renumbering_lrmsd : forall g, (forall x y, (x < y)%Z -> (g x < g y)%
   = (do z <- compute_lzone ref; lrmsd_fast rmat z check enforce names decoy ref).
 Proof. exact lrmsd_pipeline_renumbered. Qed.
 
-(* PARTIAL: the SQL RMSD routes under renumbering, the RMSD values under added hydrogens, and record
-   permutations are decided by the metamorphic correspondence, not by theorems.
-   Permutation + fast route + no enforcement: known finding F6. *)
+(* reordering the ATOM records of the decoy (any permutation, identities unique) does not change the SQL i-RMSD at all: the
+   routine walks the reference rows and finds each partner by identity *)
+Theorem C11_permuted_decoy_irmsd_sql : forall rmat rows decoy decoy' ref,
+  Permutation.Permutation decoy decoy' -> NoDup (map key4_of decoy) ->
+  irmsd_sql rmat rows decoy' ref = irmsd_sql rmat rows decoy ref.
+Proof. exact irmsd_sql_decoy_order_irrelevant. Qed.
+Print Assumptions C11_permuted_decoy_irmsd_sql.
+
+(* PARTIAL: the SQL RMSD routes under renumbering, the RMSD values under added hydrogens, and record permutations for the other
+   measures (fast routes: "same value or an explicit error"; Fnat; L-RMSD) are decided by the metamorphic correspondence, not
+   by theorems. Permutation + fast route + no enforcement: known finding F6. *)
 Example C11_example :
   let m : mat := ((0, -1, 0), (1, 0, 0), (0, 0, 1)) in
   orthogonal m /\
